@@ -32,56 +32,45 @@ theorem infTimes_not_finite (pos : Bool) (x : K) : (infTimes pos x).isFinite = f
   · split <;> cases pos <;> rfl
 
 
-/-- **as coded = as documented, outside the ±inf family** -/
-theorem kernelImpl_eq_spec (bad : K) (divide : Bool) (a1 a2 w : Scalar K)
-    (h : infFamily divide a1 a2 = false) :
+/-- **as coded = as documented**, for every input -/
+theorem kernelImpl_eq_spec (bad : K) (divide : Bool) (a1 a2 w : Scalar K) :
     kernelImpl bad divide a1 a2 w = kernelSpec bad divide a1 a2 w := by
   cases divide
   · -- multiply
     cases a1 <;> cases a2 <;>
-      simp [kernelImpl, kernelSpec, Scalar.mul, isFinite_val, isFinite_nan, isFinite_posInf, isFinite_negInf, infTimes_not_finite]
+      simp [kernelImpl, kernelSpec, Scalar.autoScale, Scalar.mul, isFinite_val, isFinite_nan, isFinite_posInf,
+        isFinite_negInf, infTimes_not_finite]
   · -- divide
     cases a1 with
-    | nan => cases a2 <;> simp [kernelImpl, kernelSpec, Scalar.recip, Scalar.mul, isFinite_val, isFinite_nan, isFinite_posInf, isFinite_negInf]
-    | posInf =>
-      cases a2 with
-      | val y =>
-        have hy : y = 0 := by simpa [infFamily] using h
-        subst hy
-        simp [kernelImpl, kernelSpec, Scalar.recip, Scalar.mul, isFinite_val, isFinite_nan, isFinite_posInf, isFinite_negInf, infTimes]
-      | nan => simp [kernelImpl, kernelSpec, Scalar.recip, Scalar.mul, isFinite_val, isFinite_nan, isFinite_posInf, isFinite_negInf]
-      | posInf => simp [infFamily] at h
-      | negInf => simp [infFamily] at h
-    | negInf =>
-      cases a2 with
-      | val y =>
-        have hy : y = 0 := by simpa [infFamily] using h
-        subst hy
-        simp [kernelImpl, kernelSpec, Scalar.recip, Scalar.mul, isFinite_val, isFinite_nan, isFinite_posInf, isFinite_negInf, infTimes]
-      | nan => simp [kernelImpl, kernelSpec, Scalar.recip, Scalar.mul, isFinite_val, isFinite_nan, isFinite_posInf, isFinite_negInf]
-      | posInf => simp [infFamily] at h
-      | negInf => simp [infFamily] at h
+    | nan => cases a2 <;> simp [kernelImpl, kernelSpec, Scalar.autoScale, Scalar.recip, Scalar.mul, isFinite_val,
+        isFinite_nan, isFinite_posInf, isFinite_negInf]
+    | posInf => cases a2 <;> simp [kernelImpl, kernelSpec, Scalar.autoScale, Scalar.recip, Scalar.mul, isFinite_val,
+        isFinite_nan, isFinite_posInf, isFinite_negInf]
+    | negInf => cases a2 <;> simp [kernelImpl, kernelSpec, Scalar.autoScale, Scalar.recip, Scalar.mul, isFinite_val,
+        isFinite_nan, isFinite_posInf, isFinite_negInf]
     | val x =>
       cases a2 with
       | nan =>
-        by_cases hx : x = 0 <;> simp [kernelImpl, kernelSpec, Scalar.recip, Scalar.mul, isFinite_val, isFinite_nan, isFinite_posInf, isFinite_negInf, hx]
+        by_cases hx : x = 0 <;> simp [kernelImpl, kernelSpec, Scalar.autoScale, Scalar.recip, Scalar.mul,
+          isFinite_val, isFinite_nan, isFinite_posInf, isFinite_negInf, hx]
       | posInf =>
-        have hx : x = 0 := by simpa [infFamily] using h
-        subst hx
-        simp [kernelImpl, kernelSpec, Scalar.recip, Scalar.mul, isFinite_val, isFinite_nan, isFinite_posInf, isFinite_negInf, infTimes]
+        by_cases hx : x = 0 <;> simp [kernelImpl, kernelSpec, Scalar.autoScale, Scalar.recip, Scalar.mul,
+          isFinite_val, isFinite_nan, isFinite_posInf, isFinite_negInf, hx]
       | negInf =>
-        have hx : x = 0 := by simpa [infFamily] using h
-        subst hx
-        simp [kernelImpl, kernelSpec, Scalar.recip, Scalar.mul, isFinite_val, isFinite_nan, isFinite_posInf, isFinite_negInf, infTimes]
+        by_cases hx : x = 0 <;> simp [kernelImpl, kernelSpec, Scalar.autoScale, Scalar.recip, Scalar.mul,
+          isFinite_val, isFinite_nan, isFinite_posInf, isFinite_negInf, hx]
       | val y =>
         by_cases hx : x = 0
         · by_cases hy : y = 0
-          · simp [kernelImpl, kernelSpec, Scalar.recip, Scalar.mul, isFinite_val, isFinite_nan, isFinite_posInf, isFinite_negInf, hx, hy]
-          · simp [kernelImpl, kernelSpec, Scalar.recip, Scalar.mul, hx, hy, infTimes_not_finite]
+          · simp [kernelImpl, kernelSpec, Scalar.autoScale, Scalar.recip, Scalar.mul, isFinite_val, isFinite_nan,
+              isFinite_posInf, isFinite_negInf, hx, hy]
+          · simp [kernelImpl, kernelSpec, Scalar.autoScale, Scalar.recip, Scalar.mul, isFinite_val, hx, hy,
+              infTimes_not_finite]
         · by_cases hy : y = 0
-          · simp [kernelImpl, kernelSpec, Scalar.recip, Scalar.mul, hx, hy, infTimes_not_finite]
+          · simp [kernelImpl, kernelSpec, Scalar.autoScale, Scalar.recip, Scalar.mul, isFinite_val, hx, hy,
+              infTimes_not_finite]
           · have e : 1 / x * (1 / y) = 1 / (x * y) := by field_simp
-            simp only [kernelImpl, kernelSpec, Scalar.recip, hx, hy, if_true, if_false, Scalar.mul,
+            simp only [kernelImpl, kernelSpec, Scalar.autoScale, Scalar.recip, hx, hy, if_true, if_false, Scalar.mul,
               isFinite_val, or_self, e]
 
 /-- the documented kernel on finite values, spelled out -/
